@@ -266,7 +266,7 @@ fn run(ctx: &mut Ctx) {
         "bad_utf8" => {
             let kinds = [8u16, 21, 22, 23, 1, 12];
             let attr = kinds[(idx % 6) as usize];
-            let bad: [&[u8]; 8] = [&[0xff], &[0xc0, 0x80], &[0xc1, 0xbf], &[0xe0, 0x80, 0x80], &[0xed, 0xa0, 0x80], &[0xf4, 0x90, 0x80, 0x80], &[0xf5, 0x80, 0x80, 0x80], &[0xe2, 0x82]];
+            let bad: [&[u8]; 8] = [&[0xff], &[0xc0, 0x80], &[0xc1, 0xbf], &[0xe0, 0x80, 0x80], &[0xed, 0xa0, 0xbd, 0xed, 0xb8, 0x80], &[0xf4, 0x90, 0x80, 0x80], &[0xf5, 0x80, 0x80, 0x80], &[0xe2, 0x82]];
             let run: Vec<u8>;
             let b: &[u8] = if (idx / 48) % 5 == 4 {
                 let class = *ctx.rng.pick(&[0x80u8, 0xbf, 0xa0, 0xc2, 0xe0, 0xf0, 0xff]);
